@@ -820,7 +820,11 @@ fn abort_error(tcb: &Tcb) -> Option<Error> {
 
 fn abort_with(k: &mut Kernel, fd: Fd, reason: AbortReason) {
     let st = k.lookup_mut(fd).unwrap();
+    let mut half_open_child = false;
     if let Some(tcb) = st.tcb.as_mut() {
+        // Only a listener's child is ever in SynReceived (an active
+        // opener goes SynSent -> Established).
+        half_open_child = tcb.state == TcpState::SynReceived;
         tcb.state = TcpState::Closed;
         match reason {
             AbortReason::Reset => tcb.reset = true,
@@ -834,6 +838,12 @@ fn abort_with(k: &mut Kernel, fd: Fd, reason: AbortReason) {
     }
     st.wake_read();
     st.wake_write();
+    if half_open_child {
+        // Never queued for `accept`, so no handle exists whose drop
+        // would close it and `reap_closed` (fd_closed only) never sees
+        // it: release the socket, its binding and its 4-tuple now.
+        k.sockets.remove(fd);
+    }
 }
 
 /// Find a listening socket bound to `local` (or the matching wildcard).
